@@ -220,7 +220,7 @@ theorem gen_pack_layout_indep (tab : SymTab) (g : Genome) (wf : WF tab g) (l : L
       runPack GenPack.pack tab g l = some (packTree tab t) := by
   rw [gen_pack_eq_model]; exact pack_layout_indep tab g wf l hi hc
 
-/-- equal streams ⇔ equal active trees, for the translated code (16-bit opcodes, all eight
+/-- equal streams ⇔ equal active trees, for the translated code (all four opcode bytes, all eight
     parameter bytes: this is where "single precision" or "skip the high byte" would fail) -/
 theorem gen_pack_injective (tab : SymTab) (g1 g2 : Genome) (wf1 : WF tab g1) (wf2 : WF tab g2)
     (l1 l2 : Locus) (h1 : l1.1 < g1.rows ∧ l1.2 < g1.cols) (h2 : l2.1 < g2.rows ∧ l2.2 < g2.cols) :
@@ -299,6 +299,47 @@ theorem team_hash_swap_iff (s : List Vita.Murmur.Hash) (x y a : Vita.Murmur.Hash
 example : ([⟨1, 0⟩, ⟨2, 0⟩] : List Vita.Murmur.Hash).foldl Vita.Murmur.Hash.combine ⟨0, 0⟩ ≠
     ([⟨2, 0⟩, ⟨1, 0⟩] : List Vita.Murmur.Hash).foldl Vita.Murmur.Hash.combine ⟨0, 0⟩ := by decide
 
+/-! Where opcodes come from (`symbol::symbol`: `opcode_(opc_count_++)`, one process-wide counter)
+    and the premise "`op < 2^32`, different symbols have different hashed opcode bytes" -/
+
+theorem gen_counter_as_modelled : GenPack.opcodeCounter = counterAsModelled := by decide
+
+/-- the first 2^32 symbols constructed in a process get pairwise different opcodes, all below 2^32
+    (the bound `WF` / `WFT` ask for) -/
+theorem opcodes_distinct (i j : Nat) (hi : i < 2 ^ 32) (hj : j < 2 ^ 32)
+    (h : GenPack.opcodeCounter.opcodeOf i = GenPack.opcodeCounter.opcodeOf j) : i = j := by
+  rw [gen_counter_as_modelled] at h
+  simp only [CounterSyn.opcodeOf, counterAsModelled, if_true] at h
+  omega
+
+theorem opcodes_bounded (k : Nat) : GenPack.opcodeCounter.opcodeOf k < 4294967296 := by
+  rw [gen_counter_as_modelled]
+  simp only [CounterSyn.opcodeOf, counterAsModelled]
+  omega
+
+/-- … and `pack` hashes different bytes for them (all four bytes of the opcode are pushed) -/
+theorem opcode_bytes_distinct (tab : SymTab) (self : Locus → Option Bytes) (g1 g2 : Gene) (i j : Nat)
+    (hi : i < 2 ^ 32) (hj : j < 2 ^ 32) (hij : i ≠ j)
+    (h1 : g1.op = GenPack.opcodeCounter.opcodeOf i) (h2 : g2.op = GenPack.opcodeCounter.opcodeOf j) :
+    exec tab g1 self (.pushBytes .opcode 0 4) ≠ exec tab g2 self (.pushBytes .opcode 0 4) := by
+  intro h
+  simp only [exec, PVal.eval, Nat.le_refl, if_true, List.drop_zero, Nat.sub_zero, Option.some.injEq] at h
+  rw [show ∀ x, List.take 4 (leBytes x 4) = leBytes x 4 from fun x =>
+        List.take_of_length_le (by rw [leBytes_length]; exact Nat.le_refl _),
+      leBytes4_eq_opBytes, leBytes4_eq_opBytes] at h
+  have := opBytes_inj (h1 ▸ opcodes_bounded i) (h2 ▸ opcodes_bounded j) h
+  exact hij (opcodes_distinct i j hi hj (h1 ▸ h2 ▸ this))
+
+/-- beyond: the counter is NOT guarded, after 2^32 constructions it silently wraps (4.3·10^9
+    symbols: out of reach) … -/
+theorem opcodes_wrap : GenPack.opcodeCounter.opcodeOf (2 ^ 32) = GenPack.opcodeCounter.opcodeOf 0 := by
+  rw [gen_counter_as_modelled]; decide
+
+/-- … whereas a `pack` that keeps only 16 bits of the opcode (as vita did: finding
+    C03-opcode-truncation) already confuses the 1st and the 65537th symbol of a process -/
+example : (PVal.castU 16 .opcode).eval ⟨GenPack.opcodeCounter.opcodeOf 65536, 0, []⟩ =
+    (PVal.castU 16 .opcode).eval ⟨GenPack.opcodeCounter.opcodeOf 0, 0, []⟩ := by decide
+
 end translated
 
 /-! non-vacuity: a concrete symbol table and two layouts of `ADD(X, 2.5)` with different introns -/
@@ -314,7 +355,8 @@ def exG2 : Genome := ⟨4, 1, fun i _ =>
   else ⟨2, 4612811918334230528, []⟩⟩
 example : pack exTab exG1 (0, 0) = pack exTab exG2 (1, 0) := by decide
 example : unfold exTab exG1 (0, 0) = unfold exTab exG2 (1, 0) := by decide
-example : pack exTab exG1 (0, 0) = some [1, 0, 3, 0, 2, 0, 0, 0, 0, 0, 0, 0, 4, 64] := by decide
+example : pack exTab exG1 (0, 0) =
+    some [1, 0, 0, 0, 3, 0, 0, 0, 2, 0, 0, 0, 0, 0, 0, 0, 0, 0, 4, 64] := by decide
 example : pack exTab exG1 (0, 0) ≠ pack exTab exG1 (1, 0) := by decide
 end example_
 
